@@ -1519,6 +1519,15 @@ public:
     if (!is_bottom()) {
       if (b1 == b2) {
 	assign_bool_var(lhs, b1, false);
+      } else if (lhs == cond || lhs == b1 || lhs == b2) {
+	// The reductions below read cond, b1 and b2 after lhs has been
+	// assigned: when lhs is one of them only the product is updated
+	// and nothing is remembered about lhs.
+	m_product.select_bool(lhs, cond, b1, b2);
+	m_bool_to_lincsts -= lhs;
+	m_bool_to_refcsts -= lhs;
+	m_bool_to_bools -= lhs;
+	forget_bool_uses(lhs);
       } else {
 	m_product.select_bool(lhs, cond, b1, b2);
 	fwd_reduction_select_bool(lhs, cond, b1, b2);
